@@ -110,8 +110,28 @@ class C18:
                 if not pred(e.term):
                     continue
                 site = f"{fs.module.relpath}:{e.lineno} {fname}"
-                got = (truth(peval(e.live, {F: "aoef", inf: "crowsetta"})), truth(peval(e.live, {F: "crowsetta", inf: "aoef"})), truth(peval(e.live, {F: None, inf: "aoef"})),
-                       truth(peval(e.live, {F: None, inf: "crowsetta"})))
+                table = "SAVERS" if fname == "save" else "LOADERS"
+                try:
+                    _, tnode = ctx.index.need_assign(modname, table)
+                    keys = {k.value for k in tnode.keys if isinstance(k, ast.Constant)} if isinstance(tnode, ast.Dict) else {"aoef"}
+                except Exception:  # noqa: BLE001
+                    keys = {"aoef"}
+
+                def decide(env_, chosen):
+                    """the condition under the scenario; a membership test in the format table and a caught KeyError of the
+                    lookup are decided by whether the chosen format is a key of the table"""
+                    r = peval(e.live, env_)
+                    extra = {}
+                    for x in walk(r):
+                        if x[0] == "cmp" and x[1] in ("in", "notin") and x[3] == ("global", f"{modname}:{table}", "assign"):
+                            v = peval(x[2], env_)
+                            if v[0] == "const":
+                                extra[x] = (v[1] in keys) == (x[1] == "in")
+                        elif x[0] == "caught" and "KeyError" in x[2]:
+                            extra[x] = chosen not in keys
+                    return truth(peval(r, extra)) if extra else truth(r)
+                got = (decide({F: "aoef", inf: "crowsetta"}, "aoef"), decide({F: "crowsetta", inf: "aoef"}, "crowsetta"),
+                       decide({F: None, inf: "aoef"}, "aoef"), decide({F: None, inf: "crowsetta"}, "crowsetta"))
                 if got == (True, False, True, False):
                     ctx.ok("R18.1", site, "reached exactly when the given format -- or, without one, the format inferred from the path -- is 'aoef'")
                 elif None in got:
@@ -294,6 +314,17 @@ class C18:
                             witness={"audio_dir": "/data/audio", "recording": "/data/audio/../private/x.wav", "stored": "../private/x.wav"})
             else:
                 good = (given[0] == "bin" and given[1] == "/" and strip_path(given[2]) == d and strip_path(given[3]) == raw)
+                if not good:
+                    # other spellings of the join: Path(os.path.join(dir, rel)), Path(dir, rel), Path(dir).joinpath(rel)
+                    g_ = given
+                    if g_[0] == "call" and g_[1] in (("ext", "pathlib.Path"), ("ext", "pathlib.PurePath")) and len(g_[2]) == 1 and not g_[3]:
+                        inner_ = g_[2][0]
+                        if inner_[0] == "call" and inner_[1] == ("ext", "os.path.join") and len(inner_[2]) == 2 and not inner_[3]:
+                            good = strip_path(inner_[2][0]) == d and strip_path(inner_[2][1]) == raw
+                    elif g_[0] == "call" and g_[1] in (("ext", "pathlib.Path"), ("ext", "pathlib.PurePath")) and len(g_[2]) == 2 and not g_[3]:
+                        good = strip_path(g_[2][0]) == d and strip_path(g_[2][1]) == raw
+                    elif g_[0] == "call" and g_[1][0] == "attr" and g_[1][2] == "joinpath" and len(g_[2]) == 1 and not g_[3]:
+                        good = strip_path(g_[1][1]) == d and strip_path(g_[2][0]) == raw
                 if good:
                     ctx.ok("R18.2", site, "read: path = self.audio_dir / obj.path")
                 else:
